@@ -17,7 +17,7 @@ func init() {
 	register(&Property{
 		ID:        "C16",
 		Title:     "IP set sync converges and never breaks rules that use a set",
-		Technique: "static analysis: SSA ordering of go statements / WaitGroup joins, who-may-destroy ownership, cut-set guard analysis, nil-error-edge analysis of deltatracker Iter closures, append-only accumulator flow + all-paths coverage of the restore failure handler, mutator -> updateDirtiness all-paths coverage with inputs derived from the predicate's field reads (go/ssa over felix/ipsets and felix/dataplane/linux)",
+		Technique: "static analysis: SSA ordering of go statements / WaitGroup joins, who-may-destroy ownership, cut-set guard analysis, nil-error-edge analysis of deltatracker Iter closures, append-only accumulator flow + all-paths coverage of the restore failure handler, mutator -> updateDirtiness all-paths coverage with inputs derived from the predicate's field reads, path-sensitive non-zero (sentinel) value analysis across closures and goroutines for reschedule requests, symbolic string evaluation of regexp sources (go/ssa over felix/ipsets, felix/dataplane/linux, felix/iptables, felix/nftables, felix/rules)",
 		DesignRef: "DESIGN.md §3 C16",
 		Explanation: "Decides structural clauses of the property: (phase) in InternalDataplane.apply every goroutine that runs IPSetsDataplane.ApplyUpdates is joined (WaitGroup.Wait on the group it Done()s after the call) before anything that runs Table.Apply/CleanupTable.CleanUp starts, those are joined before any goroutine running ApplyDeletions starts, and all are joined before apply returns; " +
 			"(destroy) the `ipset destroy` command is built in exactly one function, which is called only from closures iterating PendingDeletions() of the programmed-metadata tracker with the iterated name, and inside ApplyUpdates only under IsTempIPSetName; " +
@@ -26,12 +26,16 @@ func init() {
 			"(commit) tracked metadata is recorded only behind the nil check of the write error made after the last line, the dirty set is cleared only after the whole restore session reported no error; " +
 			"(iteraction) Iter closures return IterActionUpdateDataplane only on the nil-error edge of their fallible call; " +
 			"(requeue) in every function driving a restore session, each return reachable after a writeUpdates call either passed the nil check of the session error or ran a loop that re-queues at resyncPriMust a collection which append-only records (before the write) every set name handed to writeUpdates; " +
-			"(dirty) the inputs of the dirtiness predicate are derived from the IPSets fields updateDirtiness reads: every store to a whole-plane input (the needed-set filter) is followed on every path by updateDirtiness(k) for every key of a set-name map, and every Desired()-side mutation of a member tracker taken from the tracker map under key k is followed on every path by updateDirtiness(k) (in the function or, for helpers, at each of its call sites).",
-		NotDecided: "Dataplane()-side mutations of member trackers (writeUpdates, resync, ApplyDeletions) are reconciled by the session commit / resync paths, not by updateDirtiness, and are not part of (dirty); in-place mutation of the filter set by its owner after SetFilter; that resyncIPSet really re-reads a re-queued set. Convergence arithmetic (that the delta computed by the tracker is the right one); the kernel's swap atomicity; correctness of OwnsIPSet/IsTempIPSetName themselves; the nftables IP set implementation.",
+			"(dirty) the inputs of the dirtiness predicate are derived from the IPSets fields updateDirtiness reads: every store to a whole-plane input (the needed-set filter) is followed on every path by updateDirtiness(k) for every key of a set-name map, and every Desired()-side mutation of a member tracker taken from the tracker map under key k is followed on every path by updateDirtiness(k) (in the function or, for helpers, at each of its call sites); " +
+			"(resched) a reschedule request is never dropped by InternalDataplane.apply: for every phase method with a boolean/numeric result (ApplyDeletions, Table.Apply, CleanupTable.CleanUp) the function calling it leaves, on every path from a non-zero (true) result to its exit, some local variable of apply provably non-zero; from the statement of apply that ran it, with those variables non-zero, every path to every return of apply starts the kick timer and stores its channel in the kick-channel field (zero is the 'nothing requested' sentinel of the delay, so min(delay, c), a cap without the ==0 case, an unguarded overwrite by another requester all leave it possibly zero); the main loop selects on that field and the arm sets a flag guarding the call of apply; " +
+			"(ownpattern) every regexp source compiled in felix/ipsets, iptables, nftables, rules and dataplane/linux that splices strings.Join(prefixes, \"|\") into other text keeps the alternation directly enclosed (pattern start / group opener / `|` before it, pattern end / `)` / `|` after it), so an anchor or suffix applies to every prefix and OwnsIPSet-style ownership tests cannot match foreign names that merely contain a prefix.",
+		NotDecided: "The value of the reschedule delay beyond non-zero (a negative or huge delay), whether the throttle admits the re-run, and requests relayed through channels or struct fields instead of apply's local variables (reported undecided, not guessed); alternations built by other means than strings.Join with a constant separator, and the contents of the joined elements (quoting).Dataplane()-side mutations of member trackers (writeUpdates, resync, ApplyDeletions) are reconciled by the session commit / resync paths, not by updateDirtiness, and are not part of (dirty); in-place mutation of the filter set by its owner after SetFilter; that resyncIPSet really re-reads a re-queued set. Convergence arithmetic (that the delta computed by the tracker is the right one); the kernel's swap atomicity; correctness of OwnsIPSet/IsTempIPSetName themselves; the nftables IP set implementation.",
 		Assumptions: []string{
 			"go/types + go/ssa (x/tools v0.50.0) model of the current source, CGO_ENABLED=0 build",
 			"sync.WaitGroup Add/Done/Wait semantics; logrus Panic*/Fatal* do not return",
 			"deltatracker.Pending*View.Iter applies IterActionUpdateDataplane as documented",
+			"resched: apply's shared locals are accessed data-race free (mutex / atomic / joined goroutines, see phase); function values that cannot be resolved to a closure do not write them; time.Timer NewTimer/Reset/Stop semantics",
+			"ownpattern: RE2 syntax (alternation binds loosest); non-constant pieces other than the join are self-contained, balanced regexp fragments",
 		},
 		Run: runC16,
 		Fixtures: []Fixture{
@@ -41,6 +45,22 @@ func init() {
 				Old: "\tiptablesWG.Wait()\n\n\t// Now clean up any left-over IP sets.\n", New: "\t// Now clean up any left-over IP sets.\n", Expect: "<ApplyDeletions"},
 			{Name: "Done signalled before ApplyUpdates ran", File: "felix/dataplane/linux/int_dataplane.go",
 				Old: "\t\t\tipSets.ApplyUpdates(nil)\n\t\t\td.reportHealth()\n\t\t\tipSetsWG.Done()\n", New: "\t\t\tipSetsWG.Done()\n\t\t\tipSets.ApplyUpdates(nil)\n\t\t\td.reportHealth()\n", Expect: "C16.phase/join/ApplyUpdates"},
+			{Name: "IP sets' reschedule request merged with min(): zero delay stays zero", File: "felix/dataplane/linux/int_dataplane.go",
+				Old: "\t\tif reschedDelay == 0 || reschedDelay > 100*time.Millisecond {\n\t\t\treschedDelay = 100 * time.Millisecond\n\t\t}\n", New: "\t\treschedDelay = min(reschedDelay, 100*time.Millisecond)\n", Expect: "C16.resched/armed/ApplyDeletions"},
+			{Name: "a table answering 0 overwrites another table's reschedule request", File: "felix/dataplane/linux/int_dataplane.go",
+				Old: "if tableReschedAfter != 0 && (reschedDelay == 0 || tableReschedAfter < reschedDelay) {", New: "if reschedDelay == 0 || tableReschedAfter < reschedDelay {", Expect: "C16.resched/armed/Table.Apply"},
+			{Name: "ApplyDeletions' reschedule answer ignored by its goroutine", File: "felix/dataplane/linux/int_dataplane.go",
+				Old: "\t\t\treschedule := s.ApplyDeletions()\n\t\t\tif reschedule {\n\t\t\t\tipSetsNeedsReschedule.Store(true)\n\t\t\t}\n", New: "\t\t\ts.ApplyDeletions()\n", Expect: "C16.resched/relay/ApplyDeletions"},
+			{Name: "existing kick timer not reset", File: "felix/dataplane/linux/int_dataplane.go",
+				Old: "\t\t\td.reschedTimer.Reset(reschedDelay)\n", New: "\t\t\t_ = reschedDelay\n", Expect: "C16.resched/armed/ApplyDeletions"},
+			{Name: "reschedule kick received but apply not requested", File: "felix/dataplane/linux/int_dataplane.go",
+				Old: "\t\t\tlog.Debug(\"Reschedule kick received\")\n\t\t\td.dataplaneNeedsSync = true\n", New: "\t\t\tlog.Debug(\"Reschedule kick received\")\n", Expect: "C16.resched/kick"},
+			{Name: "IP set ownership regexp: grouping parentheses dropped", File: "felix/ipsets/ipset_defs.go",
+				Old: "\"^(\" + strings.Join(versionedPrefixes, \"|\") + \")\"", New: "\"^\" + strings.Join(versionedPrefixes, \"|\")", Expect: "C16.ownpattern/ipsets.NewIPVersionConfig"},
+			{Name: "iptables chain ownership regexp rebuilt with Sprintf without the group", File: "felix/iptables/table.go",
+				Old: "\"^(\" + strings.Join(options.HistoricChainPrefixes, \"|\") + \")\"", New: "fmt.Sprintf(\"^%s\", strings.Join(options.HistoricChainPrefixes, \"|\"))", Expect: "C16.ownpattern/iptables.NewTable"},
+			{Name: "workload interface regexp: suffix applies to the last prefix only", File: "felix/dataplane/linux/endpoint_mgr.go",
+				Old: "\"^(\" + strings.Join(cfg.wlInterfacePrefixes, \"|\") + \").*\"", New: "\"(^\" + strings.Join(cfg.wlInterfacePrefixes, \"|\") + \".*)\"", Expect: "C16.ownpattern/linux.newEndpointManagerWithShims"},
 			{Name: "eager destroy when a set is removed", File: "felix/ipsets/ipsets.go",
 				Old: "\t\tdelete(s.mainSetNameToMembers, setName)\n\t}\n\ts.updateDirtiness(setName)\n}\n\nfunc (s *IPSets) nameForMainIPSet", New: "\t\tdelete(s.mainSetNameToMembers, setName)\n\t}\n\t_ = s.deleteIPSet(setName)\n\ts.updateDirtiness(setName)\n}\n\nfunc (s *IPSets) nameForMainIPSet", Expect: "C16.destroy/caller/IPSets.RemoveIPSet"},
 			{Name: "ApplyUpdates-time cleanup deletes main sets too", File: "felix/ipsets/ipsets.go",
@@ -88,14 +108,21 @@ func init() {
 func runC16(c *Ctx) {
 	// Sensitivity fixtures only re-analyse the package they mutate.
 	runIPSets, runDP := true, true
+	rePkgs := append([]string{}, c16PatternPkgs...)
 	if c.Overlay != nil {
 		runIPSets, runDP = false, false
+		rePkgs = nil
 		for f := range c.Overlay {
 			if strings.Contains(f, "/"+c16IPSetsPkg+"/") {
 				runIPSets = true
 			}
 			if strings.Contains(f, "/"+c16DPPkg+"/") {
 				runDP = true
+			}
+			for _, pk := range c16PatternPkgs {
+				if strings.Contains(f, "/"+pk+"/") {
+					rePkgs = append(rePkgs, pk)
+				}
 			}
 		}
 	}
@@ -105,6 +132,9 @@ func runC16(c *Ctx) {
 	if runDP {
 		c.Rule("C16.phase", "E-ORDER", "InternalDataplane.apply: go ApplyUpdates -> Wait -> Table.Apply/CleanUp -> Wait -> go ApplyDeletions -> Wait; each goroutine Done()s the waited group after its payload", 12)
 		c16Phase(c)
+	}
+	if len(rePkgs) > 0 {
+		c16OwnPattern(c, rePkgs)
 	}
 }
 
@@ -442,6 +472,23 @@ func c16Phase(c *Ctx) {
 		}
 		c.Check(bad == "", key, p.Pos(apply.Pos()), "every goroutine running "+name+" is joined before apply returns", "apply can return while "+name+" is still running: "+bad)
 	}
+
+	// reschedule requests: the phase methods whose (single, boolean or numeric)
+	// result asks apply to run again
+	reqs := map[string][]*c16Event{}
+	for _, t := range append([]target{upd, del}, tabs...) {
+		res := t.m.Type().(*types.Signature).Results()
+		if res.Len() != 1 {
+			continue
+		}
+		if b, ok := res.At(0).Type().Underlying().(*types.Basic); ok && b.Info()&(types.IsBoolean|types.IsNumeric) != 0 {
+			reqs[t.name] = events[t.name]
+		}
+	}
+	if len(reqs[del.name]) == 0 {
+		c.Lost("IPSetsDataplane.ApplyDeletions no longer returns a reschedule request")
+	}
+	c16Resched(c, p, apply, reqs)
 }
 
 // ----------------------------------------------------------------- ipsets --
